@@ -218,7 +218,10 @@ def c19(tier):
                     pc = (code >> 12) & 7
                     fo.write(" %d %d %d %d %s" % ((code >> 6) & 63, code & 63, pc + 1 if pc else 0, w, dec))
                 fo.write("\nBEST %d %s\n" % (len(e["best"]), " ".join(e["best"])))
-                fo.write("PICK %d %s\nEND\n" % (len(e["pick"]), " ".join(e["pick"])))
+                if e["pick"]:
+                    fo.write("PICK %d %s\nEND\n" % (len(e["pick"]), " ".join(e["pick"])))
+                else:   # large sums: the cumulative weights define the intervals; the harness checks a sample of calls
+                    fo.write("CUM %d %s\nEND\n" % (len(e["cum"]), " ".join(str(c) for c in e["cum"])))
                 nres += len(e["pick"])
     outp = os.path.join(ck.work, "books.res")
     core.run_vh(exe, ["book-replay", "--in", flat, "--out", outp, "--uci", 1], timeout=3000)
